@@ -6,6 +6,7 @@ from sim import core, storage, env
 from . import battery, readers, filelib
 
 SPATH = storage.PREFIX + 'g.sgz'          # the sibling: another file of the same geometry (C15)
+OPATH = storage.PREFIX + 'h.sgz'          # the other: an unrelated file of the library (C15)
 
 HAVE_XARRAY = readers.HAVE_XARRAY
 readers.clear_caches()
@@ -147,6 +148,8 @@ def gen_xr_call(rng, m):
 def open_any(fs, opener):
     if opener.startswith('sib:'):
         return readers.open_obj(fs, opener[4:], SPATH)
+    if opener.startswith('oth:'):
+        return readers.open_obj(fs, opener[4:], OPATH)
     if opener == 'xarray':
         import xarray as xr
         from seismic_zfp.sgz_xarray import SeismicZfpBackendEntrypoint
@@ -155,7 +158,7 @@ def open_any(fs, opener):
 
 
 def close_any(obj, opener):
-    if opener.startswith('sib:'):
+    if opener.startswith(('sib:', 'oth:')):
         opener = opener[4:]
     if opener == 'xarray':
         try:
@@ -171,11 +174,33 @@ def close_any(obj, opener):
 def kind_of_opener(opener):
     if opener.startswith('sib:'):
         return 'sibling'
+    if opener.startswith('oth:'):
+        return 'other'
     return 'xarray' if opener == 'xarray' else readers.OPENERS[opener]['kind']
 
 
 def uses_sibling(ops):
     return any(op[0] == 'open' and op[2].startswith('sib:') for op in ops)
+
+
+def uses_other(ops):
+    return any(op[0] == 'open' and op[2].startswith('oth:') for op in ops)
+
+
+def add_other(rng, ops, m_other):
+    """Weaves a reader on another file (slot 7) into a history: opened early, a header / sample call of its
+    own every few operations, closed at a seeded point."""
+    out = []
+    opened = False
+    for i, op in enumerate(ops):
+        if not opened and i >= 1 and rng.random() < 0.5:
+            out.append(['open', 7, 'oth:' + rng.choice(['path', 'path', 'emulator', 'preload'])])
+            opened = True
+        out.append(op)
+        if opened and rng.random() < 0.3:
+            kind = 'emulator' if out and any(o[0] == 'open' and o[1] == 7 and 'emulator' in o[2] for o in out) else 'reader'
+            out.append(['call', 7, battery.gen_call(rng, m_other, kind)])
+    return out
 
 
 def distinct_calls(ops):
@@ -192,13 +217,28 @@ def distinct_calls(ops):
     return by_kind
 
 
-def truth_for(data, ops, sibling=None):
+def truth_for(data, ops, sibling=None, other=None):
     """Truth of every distinct (object kind, call) on a fresh isolated default object, computed
     before the history runs."""
     by_kind = distinct_calls(ops)
     xr_calls = by_kind.pop('xarray', [])
     sib_calls = by_kind.pop('sibling', [])
+    oth_calls = by_kind.pop('other', [])
     table = readers.truth_table(data, by_kind) if by_kind else {}
+    if oth_calls:
+        # the other file's object kind (reader / emulator) is part of its opener
+        kinds = {}
+        openers = {}
+        for op in ops:
+            if op[0] == 'open':
+                openers[op[1]] = op[2]
+            elif op[0] == 'call' and op[1] == 7:
+                k = readers.OPENERS[openers[7][4:]]['kind']
+                kinds.setdefault(k, [])
+                if op[2] not in kinds[k]:
+                    kinds[k].append(op[2])
+        for (_, key), v in readers.truth_table(other, kinds, path=OPATH).items():
+            table[('other', key)] = v
     if sib_calls:
         for (_, key), v in readers.truth_table(sibling, {'reader': sib_calls}, path=SPATH).items():
             table[('sibling', key)] = v
@@ -221,7 +261,7 @@ def truth_for(data, ops, sibling=None):
     return table
 
 
-def execute(data, ops, chooser, observer=None, step_cap=10 ** 7, sibling=None, preempt=None):
+def execute(data, ops, chooser, observer=None, step_cap=10 ** 7, sibling=None, preempt=None, other=None):
     """Runs the history.  Returns (outcomes aligned with ops (None for open/close that succeeded),
     fs, run result).  observer(i, op, opener, obj, requests, outcome) is called after every op with
     the range requests that op issued."""
@@ -229,6 +269,8 @@ def execute(data, ops, chooser, observer=None, step_cap=10 ** 7, sibling=None, p
     fs.add_file(readers.FPATH, data)
     if sibling is not None:
         fs.add_file(SPATH, sibling)
+    if other is not None:
+        fs.add_file(OPATH, other)
     outcomes = [None] * len(ops)
     objs = {}
     threads = sorted({t for t in map(op_thread, ops) if t is not None}) or [0]
